@@ -48,6 +48,7 @@ type Solver struct {
 	timeoutMS int
 	log       io.Writer
 	lastErr   string
+	ctx       string // description of the current query (for slow-query logs)
 }
 
 func solverArgs(kind string, timeoutMS int) (string, []string) {
@@ -214,6 +215,7 @@ func (s *Solver) readLine() (string, error) {
 }
 
 func (s *Solver) check(cmdline string) SatResult {
+	_ = s.ctx
 	start := time.Now()
 	s.send(cmdline)
 	s.in.Flush()
@@ -259,6 +261,9 @@ func (s *Solver) check(cmdline string) SatResult {
 		}
 	}
 	d := time.Since(start)
+	if d > 3*time.Second && os.Getenv("VERIF_SLOWQ") != "" {
+		fmt.Fprintf(os.Stderr, "SLOW QUERY %.1fs -> %v  ctx=%s\n", d.Seconds(), res, s.ctx)
+	}
 	s.stats.Queries++
 	s.stats.TotalTime += d
 	if d > s.stats.MaxTime {
